@@ -391,7 +391,7 @@ func (g *Gen) vBgPosition() string {
 		return g.pick(h()+sp()+off(), off()+sp()+v())
 	case 6, 7: // 4 values
 		a, b := edgeOff(he()), edgeOff(ve())
-		if !g.known {
+		if false { // K20 (right <pct> together with bottom <pct>) is repaired in /repo: the shape is generated by default
 			// K20: right <pct> together with bottom <pct>
 			la, lb := strings.ToLower(a), strings.ToLower(b)
 			if strings.HasPrefix(la, "right") && strings.HasSuffix(la, "%") && strings.HasPrefix(lb, "bottom") && strings.HasSuffix(lb, "%") {
@@ -558,7 +558,7 @@ func (g *Gen) vBgLayer(final bool) string {
 }
 
 func (g *Gen) vBackground() string {
-	if g.known && g.chance(1, 60) { // N21: panics
+	if g.chance(1, 60) { // N21 (panic, repaired in /repo)
 		return "padding-box border-box border-box"
 	}
 	n := 1
@@ -976,10 +976,7 @@ func (g *Gen) component() string {
 		}
 		return g.pick("1.5x", "2dppx", "1e3px", "1E+3PX", "+.5e-2em")
 	case 20:
-		if g.known {
-			return g.pick("/ *", "/ * x", "1 / *") // N10
-		}
-		return "/"
+		return g.pick("/ *", "/ * x", "1 / *", "/") // N10 (repaired in /repo)
 	}
 	return g.weirdToken()
 }
@@ -1031,9 +1028,7 @@ func (g *Gen) vUnknown() string {
 	if !g.known {
 		for i := range parts {
 			// N10: "/" followed by "*" opens a comment once the white space between them is dropped
-			if i > 0 && strings.HasSuffix(parts[i-1], "/") && strings.HasPrefix(parts[i], "*") {
-				parts[i] = "x"
-			}
+			// (N10 — "/" followed by "*" — is repaired in /repo and generated)
 			// a hex escape owns the white space character that follows it: give it one of its own
 			if reEndsHexEscape.MatchString(parts[i]) {
 				parts[i] += " "
